@@ -17,5 +17,6 @@ def main (args : List String) : IO UInt32 := do
   | ["pool"] => Driver.acceptLoop Driver.poolAcceptor stdin stdout; return 0
   | ["mqueue"] => Driver.acceptLoop Driver.mqueueAcceptor stdin stdout; return 0
   | ["madder"] => Driver.acceptLoop Driver.madderAcceptor stdin stdout; return 0
+  | ["sadder"] => Driver.acceptLoop Driver.sadderAcceptor stdin stdout; return 0
   | ["queue"] => Driver.acceptLoop Driver.queueAcceptor stdin stdout; return 0
   | _ => IO.eprintln "usage: garr_model pure|queue|adder|..."; return 2
